@@ -233,6 +233,18 @@ func (p *PX) term(v ssa.Value, fr *pxFrame, st *pxState) *Term {
 			nb := &Term{K: TConst, C: sum, T: b.T, key: sum.String()}
 			a, b = a.A, nb
 		}
+		// x - x is 0 and x - (x - c) is c, whatever x (modular arithmetic): `at := total - left`
+		// with left counting down from total
+		if x.Op == token.SUB && a.K != TConst {
+			if _, _, isInt := intTypeInfo(p.w, v.Type()); isInt {
+				if a.key == b.key {
+					return zeroTerm(v.Type())
+				}
+				if b.K == TBin && b.Op == token.SUB && b.B.K == TConst && b.A.key == a.key && types.Identical(b.T, v.Type()) {
+					return &Term{K: TConst, C: b.B.C, T: v.Type(), key: b.B.C.String()}
+				}
+			}
+		}
 		// (y + c1) - c2 and (y - c1) + c2 with c1 == c2 is y (len(append(s, x)) - 1)
 		if (x.Op == token.SUB || x.Op == token.ADD) && b.K == TConst && a.K == TBin && a.B.K == TConst && a.B.C.Cmp(b.C) == 0 &&
 			((x.Op == token.SUB && a.Op == token.ADD) || (x.Op == token.ADD && a.Op == token.SUB)) && types.Identical(a.T, v.Type()) {
@@ -1257,7 +1269,7 @@ func (p *PX) havocLoopKeep(fr *pxFrame, lp *loopInfo, st *pxState, keep map[stri
 		if keep[reg] {
 			continue
 		}
-		if keep == nil && loopRememberers(lp)[phi] {
+		if keep == nil && (loopRememberers(lp)[phi] || loopFlagRememberers(lp)[phi]) {
 			// a variable that only remembers a counter of this loop: on the first entry
 			// it keeps its initial value ("never assigned"); "assigned in some
 			// iteration" is the second generic iteration (see enter)
